@@ -188,8 +188,10 @@ Proof.
       destruct A as [(_ & _ & A3) _]. eauto.
     - injection Hin as <- _ _. exact Hp. }
   destruct inc as [ps|]; [|cbn; auto].
-  destruct last; cbn [fst]; apply SS_upd_srq; auto; intros (A1 & A2 & A3); cbn; repeat split; auto.
+  destruct last; [destruct (snap_ahead _ _)|]; cbn [fst]; apply SS_upd_srq; auto;
+    intros (A1 & A2 & A3); cbn; repeat split; auto.
   - intros b0 E. injection E as <-. apply bq_assemble. intros b' o l. apply (Hi ps b' o l eq_refl).
+  - intros ps0 b0 o l E. discriminate.
   - intros ps0 b0 o l E. discriminate.
   - intros ps0 b0 o l E. injection E as <-. apply (Hi ps b0 o l eq_refl).
 Qed.
